@@ -293,7 +293,3 @@ fn zero_of(z: &Option<Vec<Cell>>, i: usize) -> f64 {
     z.as_ref().and_then(|r| num(&r[i])).unwrap_or(0.0)
 }
 
-pub fn short(e: &str) -> String {
-    let s: String = e.chars().take(60).collect();
-    s.replace(|c: char| c.is_ascii_digit(), "#")
-}
